@@ -82,7 +82,7 @@ class FuzzyCtl:
     """A fuzzy PID controller of order `nrule` over triangular / trapezoidal sets with symbolic ordered
     parameters, symbolic consequent tables, a scratch buffer of exactly A_PID_FUZZY_BFUZZ(nfuzz) bytes."""
 
-    def __init__(self, ex, tr, nrule, nfuzz, opr, shapes, partition=False, strict=True):
+    def __init__(self, ex, tr, nrule, nfuzz, opr, shapes, partition=False, strict=True, shared=False):
         self.ex, self.tr, self.nrule = ex, tr, nrule
         self.ctx = tr.alloc(192, "fuzzy")
         tr.acts.append(("note", "zero the controller structure"))
@@ -90,6 +90,10 @@ class FuzzyCtl:
             tr.store(self.ctx + o, 0, 8)
         self.sets = {}
         for which in ("me", "mec"):
+            if shared and which == "mec":          # the same table for error and error change
+                tr.store(self.ctx + OFF["mec"], ex.load(self.ctx + OFF["me"], core.ir.int_t(64)), 8)
+                self.sets["mec"] = self.sets["me"]
+                continue
             words = []
             sets = []
             for i, sh in enumerate(shapes):
